@@ -150,8 +150,8 @@ impl FileSystem for MemoryFS {
         let entries: Vec<_> = handle
             .files
             .iter()
-            .filter_map(|(candidate_path, _)| {
-                if candidate_path == path {
+            .filter_map(|(candidate_path, candidate)| {
+                if candidate_path == path && candidate.file_type == VfsFileType::Directory {
                     found_directory = true;
                 }
                 if candidate_path.starts_with(&prefix) {
@@ -164,6 +164,9 @@ impl FileSystem for MemoryFS {
             })
             .collect();
         if !found_directory {
+            if handle.files.contains_key(path) {
+                return Err(VfsErrorKind::Other("Not a directory".into()).into());
+            }
             return Err(VfsErrorKind::FileNotFound.into());
         }
         Ok(Box::new(entries.into_iter()))
@@ -217,7 +220,11 @@ impl FileSystem for MemoryFS {
         let content = Arc::new(Vec::<u8>::new());
         #[cfg(feature = "verif-hooks")]
         crate::verif_hooks::yield_point("memory::create_file");
-        self.handle.write().unwrap().files.insert(
+        let mut handle = self.handle.write().unwrap();
+        if let Some(existing) = handle.files.get(path) {
+            ensure_file(existing)?;
+        }
+        handle.files.insert(
             path.to_string(),
             MemoryFile {
                 file_type: VfsFileType::File,
@@ -240,6 +247,7 @@ impl FileSystem for MemoryFS {
         crate::verif_hooks::yield_point("memory::append_file");
         let handle = self.handle.write().unwrap();
         let file = handle.files.get(path).ok_or(VfsErrorKind::FileNotFound)?;
+        ensure_file(file)?;
         let mut content = Cursor::new(file.content.as_ref().clone());
         content.seek(SeekFrom::End(0))?;
         let writer = WritableFile {
@@ -311,6 +319,7 @@ impl FileSystem for MemoryFS {
         #[cfg(feature = "verif-hooks")]
         crate::verif_hooks::yield_point("memory::remove_file");
         let mut handle = self.handle.write().unwrap();
+        ensure_file(handle.files.get(path).ok_or(VfsErrorKind::FileNotFound)?)?;
         handle
             .files
             .remove(path)
